@@ -15,7 +15,7 @@ from chython.containers.bonds import Bond
 
 ID = 'C11'
 RULE = ('Kekule and aromatic molecules / reactions from corpus, curated list and generators (charges -4..+4, isotopes, radicals, '
-        'coordinate and aromatic bonds, sparse atom numbers, stereo with RDKit 2D coordinates; no explicit H on stereocentres) x '
+        'coordinate and aromatic bonds, sparse atom numbers, stereo with RDKit 2D coordinates incl. pseudo-asymmetric chains and rings; no explicit H on stereocentres) x '
         '{SDF V2000, SDF V3000, RDF V2000, RDF V3000, MRV} x {molecule, reaction}; titles and metadata over printable text '
         '(multi-line values, < > & quotes, lines starting with letters of $DATUM); RDKit-written V2000 / V3000 blocks; the '
         "repository's own test files; multi-record files with one record damaged in several ways at every position; "
@@ -27,11 +27,11 @@ ASSUMPTIONS = ['CachedMethods compatibility shim', 'readers are opened with calc
                'metadata lines that are themselves record syntax ($$$$, "> <...>", $DTYPE, $RFMT, $MFMT, "]]>") are outside the claim']
 FORMATS = ['sdf', 'esdf', 'rdf', 'erdf', 'mrv']
 CONFIG = {
-    'quick': {'shards': 16, 'budget_s': 150, 'n_mols': 1400, 'n_rx': 600, 'n_corrupt': 20,
+    'quick': {'shards': 16, 'budget_s': 150, 'n_mols': 1400, 'n_rx': 600, 'n_corrupt': 20, 'rounds': 1, 'n_indexed': 1,
               'floors': {'evaluations': 6000, 'distinct_nontrivial': 1500, 'roundtrip.molecule': 3000, 'roundtrip.reaction': 400,
                          'metadata.values': 2000, 'foreign.rdkit-blocks': 500, 'corrupted.files': 150, 'indexed.records': 300,
                          'charge-codes-seen': 9, 'stereo.labels-compared': 1000, 'repo-files.records': 100}},
-    'thorough': {'shards': 16, 'budget_s': 1800, 'n_mols': 4200, 'n_rx': 3000, 'n_corrupt': 150,
+    'thorough': {'shards': 16, 'budget_s': 1800, 'n_mols': 4200, 'n_rx': 8000, 'n_corrupt': 400, 'rounds': 3, 'n_indexed': 10,
                  'floors': {'evaluations': 60000, 'distinct_nontrivial': 10000, 'roundtrip.molecule': 30000, 'roundtrip.reaction': 5000,
                             'metadata.values': 20000, 'foreign.rdkit-blocks': 4000, 'corrupted.files': 2000, 'indexed.records': 3000,
                             'charge-codes-seen': 9, 'stereo.labels-compared': 10000, 'repo-files.records': 100}},
@@ -583,7 +583,7 @@ def worker(ctx):
             if ctx.out_of_time():
                 ctx.note('time budget reached')
                 break
-            for fmt in rng.sample(FORMATS, 3):
+            for fmt in rng.sample(FORMATS, 3) if cfg['rounds'] == 1 else list(FORMATS) * (cfg['rounds'] - 1):
                 try:
                     m = prepare(ctx, s, rng, fmt)
                 except Exception:
@@ -603,7 +603,7 @@ def worker(ctx):
                 for m in mols:
                     G._fix_slots(m)
                 corrupted_file(ctx, mols, rng.choice(('sdf', 'esdf', 'rdf', 'erdf')), rng)
-            for fmt in ('sdf', 'esdf', 'rdf', 'erdf'):
+            for fmt in ('sdf', 'esdf', 'rdf', 'erdf') * cfg['n_indexed']:
                 mols = [m.copy() for m in rng.sample(pool, min(6, len(pool)))]
                 for m in mols:
                     G._fix_slots(m)
